@@ -401,6 +401,11 @@ func c16SplitFresh(c *Case) {
 		{"{ parts = $.d.split('-'); print parts.popfirst(), parts.length(); parts.push('tail') }", "a 2\na 2\na 2\n"},
 		{"function first(s) { w = s.split(' '); r = w.popfirst(); w[0] = 'gone'; return r } BEGIN { print first('to be or'), first('to be or'), first('to be or'); print 'to be or'.split(' ') }", "to to to\n[\"to\", \"be\", \"or\"]\n"},
 		{"BEGIN { a = 'x,y'.split(','); b = 'x,y'.split(','); a[0] = 1; b.push(2); print a, b, 'x,y'.split(','); c = ''.split(''); c.push(1); print ''.split(''), 'ab'.split(''), 'ab'.split('').pop(), 'ab'.split('') }", "[1, \"y\"] [\"x\", \"y\", 2] [\"x\", \"y\"]\n[] [\"a\", \"b\"] b [\"a\", \"b\"]\n"},
+		// and pluck returns a new object: stores into the result do not reach the receiver, nor the other way round (seventh round)
+		{"BEGIN { o = {a: 1, b: 2}; p = o.pluck('a'); p.a = 99; print o.a, p.a, o.b; o.a = 5; print p.a, o.a }", "1 99 2\n99 5\n"},
+		{"BEGIN { o = {a: 1, b: 2}; p = o.pluck('b', 'a'); o.b += 5; o.a++; print p.a, p.b, o.a, o.b; p.b++; print o.b, p.b }", "1 2 2 7\n7 3\n"},
+		{"{ p = $.pluck('d'); p.d = 'gone'; print $.d, p.d }", "a-b-c gone\na-b-c gone\na-b-c gone\n"},
+		{"function pk(o) { return o.pluck('n') } BEGIN { src = {n: 1}; x = pk(src); y = pk(src); x.n += 10; src.n += 100; print x.n, y.n, src.n }", "11 1 101\n"},
 	} {
 		lib := RunLib(t.prog, []InFile{{Name: "in.json", Data: []byte(`{"d": "a-b-c"} {"d": "a-b-c"} {"d": "a-b-c"}`)}}, nil, RunOpts{Budget: 100000})
 		c.NonTrivial("split-fresh:" + t.prog)
@@ -408,7 +413,7 @@ func c16SplitFresh(c *Case) {
 		if lib.Class == "ok" && string(lib.Stdout) == t.want {
 			c.Held()
 		} else {
-			c.Violation(fmt.Sprintf("results of equal split() calls are independent arrays: want %q, got %s (%s) %q | %s", t.want, lib.Class, lib.Msg, clip(string(lib.Stdout), 100), t.prog), nil, map[string]any{"program": t.prog})
+			c.Violation(fmt.Sprintf("results of split() / pluck() are values of their own: want %q, got %s (%s) %q | %s", t.want, lib.Class, lib.Msg, clip(string(lib.Stdout), 100), t.prog), nil, map[string]any{"program": t.prog})
 		}
 	}
 }
@@ -506,7 +511,7 @@ func c16PluckHistory(c *Case) {
 			fmt.Fprintf(&stores, "r['%s'] += 5; ", r)
 		}
 	}
-	prog := "{ r = $.pluck(" + args.String() + "); print '@@'; print json([r, $]); " + stores.String() + "last = r } END { print '@@'; print json(last) }"
+	prog := "{ r = $.pluck(" + args.String() + "); print '@@'; print json([r, $]); " + stores.String() + "print json($); last = r } END { print '@@'; print json(last) }"
 	lib := RunLib(prog, []InFile{{Name: "in", Data: []byte(in.String())}}, nil, RunOpts{Budget: 100000})
 	c.Count("law_runs:pluck-history")
 	c.NonTrivial("pluckhist:" + prog + in.String())
@@ -516,10 +521,17 @@ func c16PluckHistory(c *Case) {
 		return
 	}
 	for i, o := range recs {
-		v, _, err := decodeOne([]byte(parts[i+1]))
+		v, used, err := decodeOne([]byte(parts[i+1]))
 		a, ok := v.([]any)
 		if err != nil || !ok || len(a) != 2 {
 			c.Violation("pluck history: unreadable output section "+clip(parts[i+1], 80), nil, map[string]any{"program": prog, "input": in.String()})
+			return
+		}
+		// the record after the stores into the result: the result is a new object, so the record is as it was
+		rest := parts[i+1][used:]
+		after, _, err := decodeOne([]byte(rest))
+		if err != nil || !jsonEqual(any(o), after) {
+			c.Violation(fmt.Sprintf("pluck history: record %d %s is %s after stores into the object that pluck(%v) returned | %s", i, jsonBytes(o), clip(strings.TrimSpace(rest), 80), req, prog), nil, map[string]any{"program": prog, "input": in.String()})
 			return
 		}
 		want := map[string]any{}
@@ -579,7 +591,7 @@ func c16Run(c *Case) {
 func init() {
 	register(&Prop{
 		ID: "C16", Level: "exploration",
-		Rule:          "enumerated: 13 methods + 3 builtins x 32 receiver values (all 10 kinds) x 9 argument lists (0-3 arguments of several kinds): result vs reference, and never a panic; 14 methods called directly on 23 receiver expressions that were never stored (a character of a string, a call result, a parenthesised expression, a literal, a method result): never a crash, closed-form results for the string cases; 11 programs applying one call site to receivers of several kinds in turn; num() of 60 digit strings of 15-28 digits against the same digits read as a JSON number; sampled: receivers/arguments supplied through the input document so every UTF-8 string is reachable (multi-byte, separators at the ends / repeated / overlapping / empty / longer than the subject; doubles at and around halves, beyond 2^53, tiny; objects and key lists with present/absent/repeated keys and the method names length/pluck; numeric and non-numeric spellings for num) compared with reference functions; algebraic laws checked on the implementation's output alone (split pieces/join, floor<=x<=ceil, round half away, case idempotence, byte length, pluck key set (also for keys with dots over nested objects: a key names an own key, never a path) and immutability, also over 2-5 records in one run whose results are each modified after the call, num(str(x))==x). Non-trivial = non-ASCII / separator at an end or empty / non-integral number / absent key; distinct by call+document. String literals of the program holding bytes that are no valid UTF-8 (10 strings x upper / lower): length counts bytes, those bytes stay as they are, split(\"\") gives the pieces back. num() of whole numbers of 15-28 digits (as string, of its own result, of the number itself) is that number. U+FFFD as a character; 4 hand-computed programs: results of equal split() calls are independent arrays.",
+		Rule:          "enumerated: 13 methods + 3 builtins x 32 receiver values (all 10 kinds) x 9 argument lists (0-3 arguments of several kinds): result vs reference, and never a panic; 14 methods called directly on 23 receiver expressions that were never stored (a character of a string, a call result, a parenthesised expression, a literal, a method result): never a crash, closed-form results for the string cases; 11 programs applying one call site to receivers of several kinds in turn; num() of 60 digit strings of 15-28 digits against the same digits read as a JSON number; sampled: receivers/arguments supplied through the input document so every UTF-8 string is reachable (multi-byte, separators at the ends / repeated / overlapping / empty / longer than the subject; doubles at and around halves, beyond 2^53, tiny; objects and key lists with present/absent/repeated keys and the method names length/pluck; numeric and non-numeric spellings for num) compared with reference functions; algebraic laws checked on the implementation's output alone (split pieces/join, floor<=x<=ceil, round half away, case idempotence, byte length, pluck key set (also for keys with dots over nested objects: a key names an own key, never a path) and immutability, also over 2-5 records in one run whose results are each modified after the call, num(str(x))==x). Non-trivial = non-ASCII / separator at an end or empty / non-integral number / absent key; distinct by call+document. String literals of the program holding bytes that are no valid UTF-8 (10 strings x upper / lower): length counts bytes, those bytes stay as they are, split(\"\") gives the pieces back. num() of whole numbers of 15-28 digits (as string, of its own result, of the number itself) is that number. U+FFFD as a character; 4 hand-computed programs: results of equal split() calls are independent arrays; 4 more: stores through the result of pluck() and through its receiver do not reach the other, and the pluck histories print the record again after the stores.",
 		NumCases:      c16Cases,
 		Run:           c16Run,
 		MinConclusive: func(tier string) int { return 5000 },
